@@ -498,6 +498,30 @@ mod extra {
         pub e: E3,
     }
     #[derive(Deserialize, Debug)]
+    pub struct Sub4 {
+        pub x: i64,
+    }
+    #[derive(Deserialize, Debug)]
+    pub struct Inner4 {
+        pub host: String,
+        pub port: i64,
+        pub sub: Option<Sub4>,
+    }
+    #[derive(Deserialize, Debug)]
+    pub enum E4 {
+        P(Inner4),
+        L(Vec<Sub4>),
+        U,
+    }
+    #[derive(Deserialize, Debug)]
+    pub struct SE4 {
+        pub e: E4,
+    }
+    #[derive(Deserialize, Debug)]
+    pub struct VE4 {
+        pub v: Vec<E4>,
+    }
+    #[derive(Deserialize, Debug)]
     pub struct TD {
         pub p: (i64, toml_datetime::Time),
     }
@@ -537,6 +561,8 @@ mod extra {
             "odate" => routes::<OD>(text),
             "enum3" => routes::<SE3>(text),
             "ttime" => routes::<TD>(text),
+            "enum4" => routes::<SE4>(text),
+            "venum4" => routes::<VE4>(text),
             "vecvec" => routes::<VV>(text),
             "mapenum" => routes::<ME>(text),
             "mapinner" => routes::<MI>(text),
